@@ -77,6 +77,8 @@ Record config_consts := {
   conf_quote : bool;                (* string-typed options are printed between double quotes *)
   conf_cont : bool;                 (* string values holding an inline-comment start are printed as a continuation line *)
   conf_cont_sep : list byte;        (* " =\n    " between the name and the value in that form *)
+  conf_cont_ws : list byte;         (* the bytes the continuation test of action-conf.c takes for whitespace (isspace / isblank / explicit) *)
+  conf_cont_marks : list byte;      (* the byte(s) it looks for after such a byte: ";" *)
   (* etc/snoopy.ini.in: what the documentation promises (names through <syslog.h> as LOG_<NAME>) *)
   doc_options : list (list byte);   (* options with an example line ";name = ..." *)
   doc_fac : list (list byte * N);   (* "One of AUTH|AUTHPRIV|..." *)
@@ -415,11 +417,18 @@ Fixpoint has_inline (inl : list byte) (was_space : bool) (v : list byte) : bool 
   | b :: v' => (was_space && memb b inl) || has_inline inl (is_space b) v'
   end.
 
+(** the test of action-conf.c itself: whitespace as ITS helper defines it, followed by one of ITS marks *)
+Fixpoint has_inline_by (ws inl : list byte) (was_space : bool) (v : list byte) : bool :=
+  match v with
+  | [] => false
+  | b :: v' => (was_space && memb b inl) || has_inline_by ws inl (memb b ws) v'
+  end.
+
 Definition conf_line (c : config_consts) (r : opt_row) (g : cfg) : list byte :=
   let v := render_option c (row_render r) g in
   match row_type r with
   | TString =>
-    if conf_cont c && has_inline (ini_inline_comment c) false v
+    if conf_cont c && has_inline_by (conf_cont_ws c) (conf_cont_marks c) false v
     then row_name r ++ conf_cont_sep c ++ v ++ [NL]
     else if conf_quote c then row_name r ++ conf_assign c ++ [DQ] ++ v ++ [DQ; NL]
     else row_name r ++ conf_assign c ++ v ++ [NL]
